@@ -112,6 +112,17 @@ func run(e *hx.Env) *hx.Report {
 		rep.Case(strings.Join(fh[name], "\n"), r.Nontriv)
 		rep.Hit("history:fault-systematic")
 	}
+	// ---- systematic: a fresh process (no NetworkPolicy seen yet) over the leftovers of a previous one
+	fr := policy.FreshHistories()
+	for _, name := range hx.SortedKeys(fr) {
+		r, err := runOps(e, rep, name, fr[name])
+		if err != nil {
+			rep.Disagree = append(rep.Disagree, hx.Disagreement{Where: "fresh-history", Model: err.Error()})
+			continue
+		}
+		rep.Case(strings.Join(fr[name], "\n"), r.Nontriv)
+		rep.Hit("history:fresh-systematic")
+	}
 	n := e.N(120, 4000)
 	for i := 0; i < n; i++ {
 		ops := policy.GenHistory(e.Rng)
